@@ -31,29 +31,33 @@ _U = {}
 def setup(common=None):
     import unyt
     from unyt import dimensions
+    from unyt.unit_object import Unit
     from unyt.unit_registry import UnitRegistry
 
     tab = common["table"]
     names, grp, pv = tab["names"], tab["grp"], tab["pv"]
     primes = [2, 3, 5, 127]
-    reg = UnitRegistry()
     dims = {1: dimensions.length, 2: dimensions.time, 3: dimensions.angle, 4: dimensions.energy, 0: dimensions.dimensionless}
-    mscale = []
-    for n, g, v in zip(names, grp, pv):
-        s = Fraction(1)
-        for p, e in zip(primes, v):
-            s *= Fraction(p) ** e
-        mscale.append(s)
+    # registry 1: default symbols + custom atoms as in AtomPV; registry 2: the same symbols, some custom atoms re-valued
+    # (Arith!Reg2Atoms); registry 3: a plain UnitRegistry()
+    reg2pow = {int(a) - 1: int(k) for a, k in tab.get("reg2", [])}
+    regs = {1: UnitRegistry(), 2: UnitRegistry(), 3: UnitRegistry()}
+    pvs = {1: [list(v) for v in pv], 2: [list(v) for v in pv], 3: [list(v) for v in pv]}
+    for i, k in reg2pow.items():
+        pvs[2][i] = [k, 0, 0, 0]
+    for i, (n, g) in enumerate(zip(names, grp)):
         if n.startswith("x"):
             # custom atoms: power-of-two scales (exact float arithmetic); `xst` = 15 degrees = pi/12 rad
-            if n in reg.lut:
-                raise RuntimeError("custom atom collides with a unyt symbol: " + n)
-            reg.add(n, float(s) * (math.pi / 180.0) if g == 3 else float(s), dims[g] if g != 5 else dimensions.length / dimensions.time)
-    from unyt.unit_object import Unit
-
-    atoms = [Unit(n, registry=reg) for n in names]
+            for r in (1, 2):
+                if n in regs[r].lut:
+                    raise RuntimeError("custom atom collides with a unyt symbol: " + n)
+                sc = 1.0
+                for p, e in zip(primes, pvs[r][i]):
+                    sc *= float(p) ** e
+                regs[r].add(n, sc * (math.pi / 180.0) if g == 3 else sc, dims[g] if g != 5 else dimensions.length / dimensions.time)
+    atoms = [Unit(n, registry=regs[1]) for n in names]
     keys = [str(a.expr) for a in atoms]
-    _U.update(unyt=unyt, reg=reg, names=names, pv=pv, grp=grp, mscale=mscale, idx={k: i for i, k in enumerate(keys)}, ua=unyt.unyt_array, uq=unyt.unyt_quantity, dims=dims, rad=names.index("radian"))
+    _U.update(unyt=unyt, reg=regs[1], regs=regs, pvs=pvs, names=names, pv=pv, grp=grp, idx={k: i for i, k in enumerate(keys)}, ua=unyt.unyt_array, uq=unyt.unyt_quantity, dims=dims, rad=names.index("radian"))
     _U["rscale"] = [float(a.base_value) for a in atoms]
     _U["rdim"] = [a.dimensions for a in atoms]
 
@@ -67,21 +71,20 @@ def _unit_str(u):
     return "*".join(parts) if parts else "dimensionless"
 
 
-def _mscale(u):
-    """model scale of a unit vector: Fraction when rational, else float"""
-    r = _mratio(u, [0] * len(u))
-    return r
-
-
-def _mratio(ua, ub):
-    """model scale(ua) / scale(ub): exact Fraction when the prime exponents come out integral, else float"""
-    primes = [2, 3, 5, 127]
+def _sv_of(u, rg=1):
+    """scale (prime exponents x6) of a symbol-exponent vector under the symbol table of registry rg"""
     ex = [0, 0, 0, 0]
-    for ea, eb, pv in zip(ua, ub, _U["pv"]):
-        d = ea - eb
-        if d:
+    for e, v in zip(u, _U["pvs"][rg if rg in (1, 2, 3) else 1]):
+        if e:
             for k in range(4):
-                ex[k] += d * pv[k]
+                ex[k] += e * v[k]
+    return ex
+
+
+def _sv_ratio(sa, sb):
+    """scale ratio from two prime-exponent vectors (x6): exact Fraction when integral, else float"""
+    primes = [2, 3, 5, 127]
+    ex = [a - b for a, b in zip(sa, sb)]
     if all(e % 6 == 0 for e in ex):
         r = Fraction(1)
         for p, e in zip(primes, ex):
@@ -93,8 +96,16 @@ def _mratio(ua, ub):
     return r
 
 
-def _unit_vec(units):
-    """exponent vector x6 of a real Unit over the atom table; (vec, coherent)"""
+def _sv_float(sv):
+    r = 1.0
+    for p, e in zip((2, 3, 5, 127), sv):
+        r *= float(p) ** (e / 6.0)
+    return r
+
+
+def _unit_vec(units, model_sv=None):
+    """symbol exponents x6 of a real Unit over the atom table, the SI scale it CARRIES (units.base_value) as prime
+    exponents x6, and whether both could be read (dimensions consistent, no zero point, scale recognised)"""
     import sympy
 
     vec = [0] * len(_U["names"])
@@ -113,15 +124,32 @@ def _unit_vec(units):
             continue
         vec[i] = int(e6)
     if not ok:
-        return vec, False
-    want = 1.0
+        return vec, [0, 0, 0, 0], False
+    real1 = 1.0
     dim = 1
-    for s, d, e in zip(_U["rscale"], _U["rdim"], vec):
+    for sc, d, e in zip(_U["rscale"], _U["rdim"], vec):
         if e:
-            want *= s ** (e / 6.0)
+            real1 *= sc ** (e / 6.0)
             dim = dim * d ** sympy.Rational(e, 6)
-    coherent = math.isclose(float(units.base_value), want, rel_tol=1e-11) and units.dimensions == dim and not units.base_offset
-    return vec, bool(coherent)
+    if units.dimensions != dim or units.base_offset:
+        return vec, [0, 0, 0, 0], False
+    # the carried scale: the one the specification expects, or the expression valued by one of the symbol tables;
+    # angle atoms carry factors of pi in reality and not in the model - they depend on the symbols only
+    sv1 = _sv_of(vec, 1)
+    angle = real1 / _sv_float(sv1)
+    bv = float(units.base_value)
+    cands = ([list(model_sv)] if model_sv is not None else []) + [sv1, _sv_of(vec, 2)]
+    for c in cands:
+        if math.isclose(bv, _sv_float(c) * angle, rel_tol=1e-11):
+            return vec, c, True
+    # a power of two times the registry-1 valuation (mixed registries)
+    q = bv / (real1 if real1 else 1.0)
+    if q > 0:
+        k = round(math.log2(q) * 6)
+        c = [sv1[0] + k] + sv1[1:]
+        if abs(k) < 6000 and math.isclose(bv, _sv_float(c) * angle, rel_tol=1e-11):
+            return vec, c, True
+    return vec, [0, 0, 0, 0], False
 
 
 def _safe(f):
@@ -150,26 +178,38 @@ def _snap(x, cands, erad, atol):
     return [0, 0], False
 
 
+def _reg_id(units):
+    for k, r in _U["regs"].items():
+        if units.registry is r:
+            return k
+    return 0
+
+
 def _project(x, model, magnitude):
-    """observed register: kind, unit vector, numbers as rationals, exactness"""
+    """observed register: kind, unit symbols, carried scale, registry, numbers as rationals (complex: real parts then
+    imaginary parts), exactness"""
     ua = _U["ua"]
+    nz = [0] * len(_U["names"])
     if isinstance(x, ua):
-        vec, coherent = _unit_vec(x.units)
+        vec, sv, coherent = _unit_vec(x.units, model["sv"] if model and model.get("k") == "q" else None)
         k = "q"
-        vals = np.asarray(x.d, dtype=float).ravel().tolist()
+        rg = _reg_id(x.units)
+        arr = np.asarray(x.d)
     else:
-        vec, coherent, k = [0] * len(_U["names"]), True, "b"
-        vals = np.asarray(x, dtype=float).ravel().tolist()
+        vec, sv, coherent, k, rg = nz, [0, 0, 0, 0], True, "b", 0
+        arr = np.asarray(x)
+    cx = bool(np.iscomplexobj(arr))
+    if cx:
+        flat = arr.ravel()
+        vals = [float(z.real) for z in flat] + [float(z.imag) for z in flat]
+    else:
+        vals = np.asarray(arr, dtype=float).ravel().tolist()
     erad = vec[_U["rad"]]
     out = []
     exact = True
-    mu = model["u"] if model else None
     factor = None
-    if model is not None and model["k"] == k:
-        if mu == vec:
-            factor = Fraction(1)
-        else:
-            factor = _mratio(mu, vec)
+    if model is not None and model["k"] == k and bool(model.get("cx", False)) == cx and coherent:
+        factor = _sv_ratio(model["sv"], sv)
     for j, xv in enumerate(vals):
         cands = []
         if factor is not None and j < len(model["v"]):
@@ -182,18 +222,18 @@ def _project(x, model, magnitude):
         r, ex = _snap(xv, cands, erad, 1e-12 * mag)
         out.append(r)
         exact = exact and ex
-    return {"k": k, "u": vec, "v": out, "ex": bool(exact)}, coherent
+    return {"k": k, "u": vec, "sv": sv, "rg": rg, "cx": cx, "v": out, "ex": bool(exact)}, coherent
 
 
 ZERO = None
 
 
 def _bare(p):
-    return {"k": "n", "u": [0] * len(_U["names"]), "v": [list(p)], "ex": True}
+    return {"k": "n", "u": [0] * len(_U["names"]), "sv": [0, 0, 0, 0], "rg": 0, "cx": False, "v": [list(p)], "ex": True}
 
 
 def _dummy():
-    return {"k": "x", "u": [0] * len(_U["names"]), "v": [[1, 1]], "ex": True}
+    return {"k": "x", "u": [0] * len(_U["names"]), "sv": [0, 0, 0, 0], "rg": 0, "cx": False, "v": [[1, 1]], "ex": True}
 
 
 # ------------------------------------------------------------------ execution
@@ -210,10 +250,8 @@ _IOP = {
 _FN = {"add": "sum", "multiply": "prod", "maximum": "max", "minimum": "min"}
 
 
-def _out_like(shape):
-    if shape == ():
-        return _U["ua"](np.zeros(()), "xta", registry=_U["reg"])
-    return _U["ua"](np.zeros(shape), "xta", registry=_U["reg"])
+def _out_like(shape, cx=False):
+    return _U["ua"](np.zeros(shape, dtype=complex if cx else float), "xta", registry=_U["reg"])
 
 
 def _exec(st, form, a, b):
@@ -259,7 +297,7 @@ def _exec(st, form, a, b):
         return [("", t), (".ret", r)]
     if form == "out":
         shape = np.broadcast(np.asarray(a), np.asarray(b)).shape if not unary else np.shape(a)
-        o = _out_like(shape)
+        o = _out_like(shape, np.iscomplexobj(a) or (not unary and np.iscomplexobj(b)))
         r = uf(a, out=o) if unary else uf(a, b, out=o)
         return [("", o), (".ret", r)]
     raise ValueError("unknown form " + form)
@@ -272,14 +310,31 @@ def _tb():
     return lines[:4] + lines[-6:]
 
 
+_NPDT = {"f8": np.float64, "f4": np.float32, "c16": np.complex128, "c8": np.complex64, "i8": np.int64, "i4": np.int32}
+
+
 def _leaf(model):
     vals = [Fraction(n, d) for n, d in model["v"]]
     erad = model["u"][_U["rad"]]
     fl = [float(v) * (STEP ** (erad // 6) if erad else 1.0) for v in vals]
     us = _unit_str(model["u"])
-    if len(fl) == 1:
-        return _U["uq"](fl[0], us, registry=_U["reg"])
-    return _U["ua"](np.array(fl, dtype=float), us, registry=_U["reg"])
+    reg = _U["regs"].get(model.get("rg", 1), _U["reg"])
+    dt = model.get("dt", "f8")
+    if model.get("cx"):
+        n = len(fl) // 2
+        data = np.array([complex(fl[i], fl[n + i]) for i in range(n)], dtype=_NPDT[dt if dt in ("c16", "c8") else "c16"])
+    else:
+        data = np.array(fl, dtype=float)
+        if dt in ("i8", "i4"):
+            # an integer leaf where the numbers are integers (a re-expressed leaf need not be): else float64
+            if all(v.denominator == 1 for v in vals) and not erad:
+                data = data.astype(_NPDT[dt])
+        elif dt == "f4":
+            if all(float(np.float32(x)) == x for x in fl):
+                data = data.astype(np.float32)
+    if data.shape == (1,):
+        return _U["uq"](data[0], us, registry=reg)
+    return _U["ua"](data, us, registry=reg)
 
 
 def _run(case, run, variant):
@@ -312,6 +367,8 @@ def _run(case, run, variant):
             form = "op"
         if form in ("iop", "outself") and not ia:
             form = "op"
+        if form in ("iop", "outself") and not unary and np.iscomplexobj(b) and not np.iscomplexobj(a):
+            form = "op"  # a complex result cannot be written into a real target (NumPy's casting rule)
         try:
             results = _exec(st, form, a, b)
         except Exception as ex:  # noqa: BLE001 - a refusal is an observation (no quantity was produced)
@@ -323,7 +380,7 @@ def _run(case, run, variant):
         for x in (a, b):
             if x is not None:
                 try:
-                    mag = max(mag, float(np.max(np.abs(np.asarray(x, dtype=float)))))
+                    mag = max(mag, float(np.max(np.abs(np.asarray(x)))))
                 except Exception:  # noqa: BLE001
                     pass
         first = None
@@ -331,7 +388,7 @@ def _run(case, run, variant):
             o, coherent = _project(r, model[si + 2], mag if st["op"] in ("sin", "cos", "tan", "add", "subtract", "dot", "remainder", "fmod", "divmod_r") or st["meth"] in ("reduce", "accumulate") else 0.0)
             if first is None:
                 first = (r, o)
-            events.append({"kind": "step", "op": st["op"], "meth": st["meth"], "form": form + label, "p": st["p"], "A": oa, "B": ob, "R": {"k": o["k"], "u": o["u"], "v": o["v"]}, "ucons": bool(coherent), "run": run, "variant": variant, "step": si})
+            events.append({"kind": "step", "op": st["op"], "meth": st["meth"], "form": form + label, "p": st["p"], "A": oa, "B": ob, "R": {"k": o["k"], "u": o["u"], "sv": o["sv"], "rg": o["rg"], "cx": o["cx"], "v": o["v"]}, "ucons": bool(coherent), "run": run, "variant": variant, "step": si})
         real.append(first[0] if isinstance(first[0], _U["ua"]) else None)
         obs.append(first[1])
     return events, errors, obs
@@ -352,5 +409,5 @@ def observe(case):
         errors += xa + xb
         for i in range(2, len(oa)):
             if oa[i] is not None and ob[i] is not None:
-                events.append({"kind": "reex", "A": {"k": oa[i]["k"], "u": oa[i]["u"], "v": oa[i]["v"]}, "B": {"k": ob[i]["k"], "u": ob[i]["u"], "v": ob[i]["v"]}, "variant": variant, "step": i - 2, "op": case["steps"][i - 2]["op"]})
+                events.append({"kind": "reex", "A": {"k": oa[i]["k"], "u": oa[i]["u"], "sv": oa[i]["sv"], "v": oa[i]["v"]}, "B": {"k": ob[i]["k"], "u": ob[i]["u"], "sv": ob[i]["sv"], "v": ob[i]["v"]}, "variant": variant, "step": i - 2, "op": case["steps"][i - 2]["op"]})
     return {"events": events, "errors": errors}
